@@ -40,6 +40,22 @@ CLAIMS.update({
     "C08": dict(text="Theorems C08_registered_exactly_once (for ANY sequence of add_knowledge calls - repeated roots, inner formulae added again, set_query on a member - every sub-formula object of every root has exactly one key in Model.nodes, that key is its formula number and lies below num_formulae), C08_numbers_stable, C08_nothing_else_registered, C08_traversal_reaches_once (every model-wide traversal visits every sub-formula object exactly once), C08_same_object (the step executed at an object writes that object and its own operand objects). Objects are identities: twins and Iff/XOr private sub-formulae are distinct. Holds for the tree after fix commits 6592514 and c4a5170.",
                 design="7/C08", technique="Coq proof (registry invariant by induction over add_knowledge calls; pre-order numbering model) + exact differential correspondence of formula numbers / Model.nodes + identity census on the implementation"),
 })
+
+CLAIMS.update({
+    "C02": dict(text="Theorems C02_ground_sound / C02_consistent_never_contradicts over the first-order model (tables, homogeneous union/hash-join and heterogeneous extended outer joins, nests, Not, duplicate merging, every interleaving of node- and model-level calls): every reading (a grounding without a row reads as its world default) contains the value of EVERY ground interpretation that satisfies the truth functions of all ground instances and the initial readings; so no bound is tighter than the ground theory justifies, facts cannot leak between groundings, ground-consistent data is never driven to a contradiction. Partial: the proof-theoretic comparison with the ground propagation fixpoint is checked on the implementation (ground oracle), not proved.",
+                design="7/C02", technique="Coq proof (soundness invariant by induction over operations, reuse of the neuron soundness lemmas) + exact differential correspondence + ground-instance oracle on the implementation",
+                note=NOTE_TB + " Partial as stated in the claim. Not modelled: bindings, propositions inside FOL connectives, repeated variables in one call."),
+    "C09": dict(text="Theorems C09_homogeneous_complete, C09_heterogeneous_complete / C09_join_contains_natural_join (the natural join of the operands' groundings is contained in what the connective evaluates: list model of the pandas outer/cross joins, any number of operands, any variable pattern), C09_evaluated_rows_exist, C09_upward_value (a fresh non-arrested row holds exactly the truth function of the operand rows at its projections), C09_downward_frame (only operand tables are written) and C09_downward_at_least_inverse (every dependent operand row ends at least as tight as the inverse for that grounding, duplicates merged by max/min).",
+                design="7/C09", technique="Coq proof (join completeness over the list model of pandas merge; value/frame lemmas) + exact differential correspondence + independent natural-join/inverse oracle on the implementation"),
+    "C10": dict(text="Theorems C10_*_partial: the three mechanisms through which set-iteration order could become visible are order-free in the model: rows are read by key (any permutation of a table's rows gives the same readings), groundings are added by key (any order/repetition gives the same readings and key set), duplicate proposals are merged by max/min (function of the SET of proposals per row); facts listed in another order read back the same. Partial (named so): the end-to-end congruence of every operation w.r.t. order-equivalent states is not proved; it is checked on the implementation under 8 (thorough: 32) PYTHONHASHSEEDs and permuted fact lists against the deterministic model.",
+                design="7/C10", technique="Coq proof (order-freeness lemmas: permutation of rows, extension order, max/min merging) + exact differential correspondence under several PYTHONHASHSEEDs and permuted fact order",
+                note=NOTE_TB + " Partial as stated in the claim. The implementation is run only under the listed hash seeds."),
+    "C14": dict(text="Theorems C14_unknown_reads_default, C14_query_does_not_create, C14_extension_creates_default / C14_extension_invisible / C14_new_rows_from_default (a row introduced by a join, propagation or downward step holds the world default as data and reads at least as tight, after ANY inference sequence), C14_axiom_stays_true (lower bound 1 through every inference), C14_reset_world (the add_knowledge(world=...) branch on a non-empty table is covered).",
+                design="7/C14", technique="Coq proof (table/extension lemmas + monotone-read invariant over all inference operations) + exact differential correspondence + world-default monitors"),
+    "C15": dict(text="Theorems C15_roundtrip, C15_other_groundings_untouched, C15_other_formulae_untouched, C15_later_overwrites, C15_reset_returns_to_data (reset_bounds after ANY inference returns every grounding to its assertion or its world default), C15_accepted_in_range and C15_rejects over the validation model (out-of-range floats/pairs, wrong length, wrong type for the formula, formula not in the model). Holds for the tree after fix commits 5319eb9 and 4270eca.",
+                design="7/C15", technique="Coq proof (finite-map lemmas on tables; stored-data invariant over all inference operations; validation model) + exact differential correspondence incl. value-encoding scenarios",
+                note=NOTE_TB + " Quantifier add_data is covered by the quantifier check, not by these theorems."),
+})
 NA_REASON = "check not built yet in this round (planned: see DESIGN.md section 7); not claimed"
 checks, na = [], []
 for p in props:
